@@ -141,28 +141,14 @@ def run(chk):
             {"module": "ApplyMC", "cfg": "ApplyMC.cfg", "label": "B1 unit operators x rotations x re-interpolation (design)", "workers": 6},
             {"module": "ApplyMC", "cfg": "ApplyMC_swapped.cfg", "label": "design switch ContractFaithful=FALSE (must violate)", "workers": 2, "expect_violation": "InvContract"},
         ]
-        res = drv.run_many(chk, b1, threads=2)
-        if res[0].violated:
-            raise MachineryError(f"Apply.tla lemmas violated on the design: {res[0].violated}: {res[0].counterexample()[:1500]}")
+        b1run = drv.ManyTlc(chk, b1, threads=2)
         recs = [r for part in ares.get() for r in part]
 
     for r in recs:
         nontrivial = r["rotate"] or len(r["tgt"]) > 0 or not all(r["has"])
         chk.count(1, (str(r["g"]), r["deg"], r["qed"], r["rotate"], str(r["tgt"]), str(r["has"]), str(r["raw"])), nontrivial=nontrivial)
     chk.sample({k: recs[0][k] for k in ("g", "deg", "qed", "rotate", "tgt", "has", "labels", "out", "outerr")})
-    bad = drv.validate_chunks(chk, "ApplyTrace", "ApplyTrace.cfg", recs, max(4, len(recs) // 10 + 1), "applied EKOs")
-    for k, verdict in bad:
-        r = recs[k]
-        inst = f"grid={r['g']} deg={r['deg']} qed={r['qed']} rotate={r['rotate']} target={r['tgt']} missing={[p for p, h in zip(PIDS, r['has']) if not h]}"
-        if verdict.startswith("C43:"):
-            chk.violation(f"{verdict} qed={r['qed']}", f"ekobox.apply violates {verdict} for {inst}", {"verdict": verdict, "record": r})
-        else:
-            raise MachineryError(f"trace record rejected for a non-property reason: {verdict} {inst}")
-    chk.note("apply_records", len(recs))
-    chk.note("with_error_tensor", sum(1 for r in recs if r["haserr"]))
-    chk.note("qed_records", sum(1 for r in recs if r["qed"]))
-
-    # ---- binding demonstration ----------------------------------------------------------------
+    # binding demonstration rides along: corrupted copies must be rejected by the same runs
     good = next(r for r in recs if r["haserr"] and r["rotate"] and len(r["tgt"]) > 0 and r["tgt"] != r["g"])
     c1 = copy.deepcopy(good)
     c1["out"][3][0] = [c1["out"][3][0][0] + c1["out"][3][0][1], c1["out"][3][0][1]]
@@ -174,9 +160,27 @@ def run(chk):
     c4["labels"] = list(PIDS)
     c5 = copy.deepcopy(good)
     c5["q2ok"] = False
-    rb = chk.tlc("ApplyTrace", "ApplyTrace.cfg", trace=[c1, c2, c3, c4, c5], workers=1,
-                 label="corrupted records (must be rejected)")
-    got = {t[1]: t[2] for t in rb.printed("BAD")}
-    if not all(got.get(k, "").startswith("C43:") for k in (1, 2, 3, 4, 5)):
+    nreal = len(recs)
+    nchunks = 8 if chk.thorough() else 4
+    jobs = drv.trace_jobs("ApplyTrace", "ApplyTrace.cfg", recs + [c1, c2, c3, c4, c5], nchunks, "applied EKOs")
+    bad = drv.trace_bad(chk, jobs, drv.run_many(chk, jobs, threads=nchunks))
+    got = {k - nreal: v for k, v in bad if k >= nreal}
+    if not all(got.get(k, "").startswith("C43:") for k in range(5)):
         raise MachineryError(f"binding demonstration failed: {got}")
+    chk.cov["traces_validated_against_impl"] -= 5
     chk.note("binding_demo", f"5 corrupted records rejected by ApplyTrace: {sorted(set(got.values()))}")
+    bad = [(k, v) for k, v in bad if k < nreal]
+    for k, verdict in bad:
+        r = recs[k]
+        inst = f"grid={r['g']} deg={r['deg']} qed={r['qed']} rotate={r['rotate']} target={r['tgt']} missing={[p for p, h in zip(PIDS, r['has']) if not h]}"
+        if verdict.startswith("C43:"):
+            chk.violation(f"{verdict} qed={r['qed']}", f"ekobox.apply violates {verdict} for {inst}", {"verdict": verdict, "record": r})
+        else:
+            raise MachineryError(f"trace record rejected for a non-property reason: {verdict} {inst}")
+    chk.note("apply_records", len(recs))
+    chk.note("with_error_tensor", sum(1 for r in recs if r["haserr"]))
+    chk.note("qed_records", sum(1 for r in recs if r["qed"]))
+
+    res = b1run.finish()
+    if res[0].violated:
+        raise MachineryError(f"Apply.tla lemmas violated on the design: {res[0].violated}: {res[0].counterexample()[:1500]}")
